@@ -9,6 +9,8 @@ Driver entries for C13.
                             `~` stands for the empty name
          | p | c            predict / correct on the running belief
          | H                hand-over: steps move-constructed into new objects held by a new filter
+         | A                a (new) exogenous model is attached through getStateModel().add_exogenous_model
+      level X = prediction().getStateModel().exogenous_model().skip(name, on)
   -> one token per op, preceded by the initial observation:
       init/<flags>/<P>/<C>     r<1|0|T>/<flags>/<P>/<C>     p/<P>     c/<C>
      flags = prediction, state model, exogenous model (`-` when absent);  P = label of what
@@ -60,6 +62,7 @@ def parseCmd (t : String) : Option Cmd :=
       | "P" => some .prediction
       | "C" => some .correction
       | "M" => some .stateModel
+      | "X" => some .exoModel
       | _ => none
     let b : Option Bool := match on with
       | "0" => some false
@@ -73,17 +76,32 @@ def parseCmd (t : String) : Option Cmd :=
 def obsAll (k : PredKind) (st : SkipState) : String :=
   flagsStr st ++ "/" ++ obsStr (predObs k st) ++ "/" ++ corrStr st
 
-def runOps (k : PredKind) : SkipState → List String → Option (List String)
+/-- label of a step on the running belief, read off the belief trace of the state machine -/
+def stepLabel (old new : List String) : String :=
+  if new.length == old.length then "id" else new.getLast?.getD "id"
+
+def parseOp (t : String) : Option Op :=
+  if t == "p" then some .predict
+  else if t == "c" then some .correct
+  else if t == "H" then some .handOver
+  else if t == "A" then some .attach
+  else (parseCmd t).map .cmd
+
+/-- every history runs through `BFL.Skip.stepOp` (flags *and* running belief, as a trace) -/
+def runOps (k : PredKind) : FilterSt (List String) → List String → Option (List String)
   | _, [] => some []
-  | st, t :: ts =>
-    if t == "p" then (runOps k st ts).map (("p/" ++ obsStr (predObs k st)) :: ·)
-    else if t == "c" then (runOps k st ts).map (("c/" ++ corrStr st) :: ·)
-    else if t == "H" then (runOps k (handOver st) ts).map (("h/" ++ obsAll k (handOver st)) :: ·)
-    else match parseCmd t with
-      | none => none
-      | some c =>
-        let r := skipCmd st c
-        (runOps k r.st ts).map ((outStr r.out ++ "/" ++ obsAll k r.st) :: ·)
+  | s, t :: ts =>
+    match parseOp t with
+    | none => none
+    | some op =>
+      let s' := stepOp traceSem k s op
+      let tok : String := match op with
+        | .predict => "p/" ++ stepLabel s.belief s'.belief
+        | .correct => "c/" ++ stepLabel s.belief s'.belief
+        | .handOver => "h/" ++ obsAll k s'.flags
+        | .attach => "a/" ++ obsAll k s'.flags
+        | .cmd c => outStr (skipCmd s.flags c).out ++ "/" ++ obsAll k s'.flags
+      (runOps k s' ts).map (tok :: ·)
 
 def skipLine : R String := do
   let kStr ← tok
@@ -96,7 +114,7 @@ def skipLine : R String := do
   | none => failure
   | some k =>
     let st := if kStr == "draw2" then drawTwoArgConfig exo else SkipState.init exo
-    match runOps k st ops with
+    match runOps k ⟨st, [], 0⟩ ops with
     | none => failure
     | some out => pure (join (("init/" ++ obsAll k st) :: out))
 
